@@ -17,9 +17,16 @@ import (
 	"bufio"
 	"bytes"
 	"context"
+	"crypto/ecdsa"
+	"crypto/elliptic"
+	crand "crypto/rand"
+	"crypto/tls"
+	"crypto/x509"
+	"crypto/x509/pkix"
 	"errors"
 	"fmt"
 	"io"
+	"math/big"
 	"net"
 	"net/http"
 	"net/http/httptest"
@@ -230,9 +237,16 @@ type vc19Req struct {
 	Mutated  int    // number of mutations applied to the template
 
 	// What the client did, for the oracle and the statistics.
-	Forged         []string // canonical names of forged forwarding headers
-	ConnListsCIP   bool     // Connection names X-Connecting-IP
-	SentOwnCIP     bool     // client sent X-Connecting-IP itself
+	Forged       []string // canonical names of forged forwarding headers
+	ConnListsCIP bool     // Connection names X-Connecting-IP
+
+	// ConnFirstEmptyLaterCIP: several Connection lines, the first one empty
+	// or white space only, a later one names X-Connecting-IP.
+	ConnFirstEmptyLaterCIP bool
+
+	// RepeatedLine: some header name occurs on more than one line.
+	RepeatedLine   bool
+	SentOwnCIP     bool // client sent X-Connecting-IP itself
 	HasConnHeader  bool
 	PathClasses    []string
 	AbsoluteTarget bool
@@ -594,37 +608,6 @@ func vc19GenHeaders(t *rapid.T, r *vc19Req) {
 		}
 	}
 
-	if rapid.IntRange(0, 9).Draw(t, "conn-hdr") < 4 {
-		toks := []string{}
-		pool := []string{
-			"close", "keep-alive", "X-Connecting-IP", "x-connecting-ip", "X-Request-ID",
-			"CF-Connecting-IP", "X-Real-IP", "X-Forwarded-For", "User-Agent",
-		}
-		for _, p := range pool {
-			if rapid.IntRange(0, 2).Draw(t, "conn-tok-"+p) == 0 {
-				toks = append(toks, p)
-			}
-		}
-
-		if len(toks) == 0 {
-			toks = append(toks, "X-Connecting-IP")
-		}
-
-		for _, tok := range toks {
-			if strings.EqualFold(tok, "X-Connecting-IP") {
-				r.ConnListsCIP = true
-			}
-		}
-
-		r.HasConnHeader = true
-		if rapid.Bool().Draw(t, "conn-split") && len(toks) > 1 {
-			hs = append(hs, [2]string{"Connection", toks[0]})
-			hs = append(hs, [2]string{vc19WireName(t, "Connection"), strings.Join(toks[1:], ", ")})
-		} else {
-			hs = append(hs, [2]string{vc19WireName(t, "Connection"), strings.Join(toks, ", ")})
-		}
-	}
-
 	if rapid.Bool().Draw(t, "benign") {
 		hs = append(hs, [2]string{"User-Agent", "vc19-client/1.0"})
 		hs = append(hs, [2]string{"Accept", "*/*"})
@@ -634,6 +617,94 @@ func vc19GenHeaders(t *rapid.T, r *vc19Req) {
 	if len(hs) > 1 {
 		perm := rapid.Permutation(hs).Draw(t, "hdr-order")
 		hs = perm
+	}
+
+	// Connection: one to three header lines, kept in their drawn order among
+	// the other headers.  A line is a token list, or empty / white space only
+	// (which the parser trims to empty).  net/http and the reverse proxy read
+	// ALL lines; code that asks Header.Get sees only the first.
+	if rapid.IntRange(0, 9).Draw(t, "conn-hdr") < 5 {
+		pool := []string{
+			"close", "keep-alive", "X-Connecting-IP", "x-connecting-ip", "X-Request-ID",
+			"CF-Connecting-IP", "X-Real-IP", "X-Forwarded-For", "User-Agent",
+		}
+		tokenLine := func(label string) string {
+			toks := []string{}
+			for _, p := range pool {
+				if rapid.IntRange(0, 2).Draw(t, label+"-tok-"+p) == 0 {
+					toks = append(toks, p)
+				}
+			}
+
+			if len(toks) == 0 {
+				toks = append(toks, "X-Connecting-IP")
+			}
+
+			return strings.Join(toks, rapid.SampledFrom([]string{", ", ",", " , "}).Draw(t, label+"-sep"))
+		}
+		emptyLine := func(label string) string {
+			return rapid.SampledFrom([]string{"", "", " ", "   ", "\t", ","}).Draw(t, label+"-empty")
+		}
+
+		var lines []string
+		switch mode := rapid.IntRange(0, 9).Draw(t, "conn-mode"); {
+		case mode < 2:
+			// The first line says nothing, a later one names the client-IP
+			// header.
+			lines = append(lines, emptyLine("conn0"))
+			if rapid.Bool().Draw(t, "conn-mid") {
+				lines = append(lines, rapid.SampledFrom([]string{"", "keep-alive", "close", "X-Real-IP"}).Draw(t, "conn-mid-line"))
+			}
+
+			lines = append(lines, rapid.SampledFrom([]string{
+				"X-Connecting-IP", "x-connecting-ip", "X-CONNECTING-IP, X-Request-ID", "keep-alive, X-Connecting-Ip",
+			}).Draw(t, "conn-last-line"))
+		default:
+			n := rapid.SampledFrom([]int{1, 1, 1, 2, 2, 3}).Draw(t, "conn-lines")
+			for j := 0; j < n; j++ {
+				label := "conn" + strconv.Itoa(j)
+				if rapid.IntRange(0, 5).Draw(t, label+"-kind") == 0 {
+					lines = append(lines, emptyLine(label))
+				} else {
+					lines = append(lines, tokenLine(label))
+				}
+			}
+		}
+
+		r.HasConnHeader = true
+		pos := 0
+		for j, line := range lines {
+			pos = rapid.IntRange(pos, len(hs)).Draw(t, "conn-pos")
+			name := "Connection"
+			if j > 0 || rapid.Bool().Draw(t, "conn-name-case") {
+				name = vc19WireName(t, "Connection")
+			}
+
+			hs = append(hs[:pos], append([][2]string{{name, line}}, hs[pos:]...)...)
+			pos++
+
+			names := false
+			for _, tok := range strings.Split(line, ",") {
+				if strings.EqualFold(strings.TrimSpace(tok), "X-Connecting-IP") {
+					names = true
+				}
+			}
+
+			if names {
+				r.ConnListsCIP = true
+				if j > 0 && strings.Trim(lines[0], " \t") == "" {
+					r.ConnFirstEmptyLaterCIP = true
+				}
+			}
+		}
+	}
+
+	seen := map[string]int{}
+	for _, h := range hs {
+		seen[strings.ToLower(h[0])]++
+		if seen[strings.ToLower(h[0])] == 2 {
+			r.RepeatedLine = true
+		}
 	}
 
 	r.Headers = hs
@@ -761,6 +832,7 @@ func vc19Vary(t *rapid.T, prev *vc19Req) (r *vc19Req) {
 		r.Variant = "header-set"
 		r.Forged, r.Sent, r.ZeroForged = nil, nil, false
 		r.ConnListsCIP, r.SentOwnCIP, r.HasConnHeader = false, false, false
+		r.ConnFirstEmptyLaterCIP, r.RepeatedLine = false, false
 		vc19GenHeaders(t, r)
 	case 7:
 		r.Variant = "keyword-spelling"
@@ -947,6 +1019,7 @@ func (c *vc19ErrColl) take() (errs []string) {
 
 type vc19Front struct {
 	base  string
+	tls   bool
 	tap   *vc19Tap
 	addr4 string
 	addr6 string // "" if IPv6 loopback is not available
@@ -961,11 +1034,17 @@ type vc19Fixture struct {
 // vc19NewServer returns the *http.Server that websvc.New builds for a linked_ip
 // bind with the given target, i.e. the handler wired the way production wires
 // it (with the production time-outs), to be served on the harness' listeners.
-func vc19NewServer(t *testing.T, apiURL *url.URL, ec *vc19ErrColl, timeout time.Duration) (srv *http.Server) {
+func vc19NewServer(
+	t *testing.T,
+	apiURL *url.URL,
+	ec *vc19ErrColl,
+	timeout time.Duration,
+	tlsConf *tls.Config,
+) (srv *http.Server) {
 	svc := New(&Config{
 		LinkedIP: &LinkedIPServer{
 			TargetURL: apiURL,
-			Bind:      []*BindData{{Address: netip.MustParseAddrPort("127.0.0.1:0")}},
+			Bind:      []*BindData{{TLS: tlsConf, Address: netip.MustParseAddrPort("127.0.0.1:0")}},
 		},
 		StaticContent: http.NotFoundHandler(),
 		ErrColl:       ec,
@@ -984,14 +1063,26 @@ func vc19NewFixture(t *testing.T) (f *vc19Fixture) {
 	bsrv := httptest.NewServer(f.backend)
 	t.Cleanup(bsrv.Close)
 
-	for _, base := range []string{"", "/base/v1"} {
+	// Two plain binds (with and without a base path in the target) and one TLS
+	// bind, served the way mustStartServer serves it: Serve on a TLS listener
+	// made from the server's own TLS configuration.
+	for _, fc := range []struct {
+		base string
+		tls  bool
+	}{{"", false}, {"/base/v1", false}, {"", true}} {
+		base := fc.base
 		apiURL, err := url.Parse(bsrv.URL + base)
 		if err != nil {
 			t.Fatalf("harness: parsing backend url: %s", err)
 		}
 
-		srv := vc19NewServer(t, apiURL, f.errs, 10*time.Second)
-		fr := &vc19Front{base: base, tap: &vc19Tap{h: srv.Handler}}
+		var tlsConf *tls.Config
+		if fc.tls {
+			tlsConf = vc19ServerTLS(t)
+		}
+
+		srv := vc19NewServer(t, apiURL, f.errs, 10*time.Second, tlsConf)
+		fr := &vc19Front{base: base, tls: fc.tls, tap: &vc19Tap{h: srv.Handler}}
 		srv.Handler = fr.tap
 
 		wg := &sync.WaitGroup{}
@@ -1000,14 +1091,27 @@ func vc19NewFixture(t *testing.T) (f *vc19Fixture) {
 			t.Fatalf("harness: listening on ipv4 loopback: %s", err)
 		}
 
+		// Decided before Serve runs: Serve itself installs an empty TLS
+		// configuration on a plain server when it sets up HTTP/2.
+		srvTLS := srv.TLSConfig
+		wrap := func(l net.Listener) net.Listener {
+			if srvTLS == nil {
+				return l
+			}
+
+			return tls.NewListener(l, srvTLS)
+		}
+
 		fr.addr4 = l4.Addr().String()
 		wg.Add(1)
-		go func() { defer wg.Done(); _ = srv.Serve(l4) }()
+		tl4 := wrap(l4)
+		go func() { defer wg.Done(); _ = srv.Serve(tl4) }()
 
 		if l6, err6 := net.Listen("tcp6", "[::1]:0"); err6 == nil {
 			fr.addr6 = l6.Addr().String()
 			wg.Add(1)
-			go func() { defer wg.Done(); _ = srv.Serve(l6) }()
+			tl6 := wrap(l6)
+			go func() { defer wg.Done(); _ = srv.Serve(tl6) }()
 		}
 
 		t.Cleanup(func() {
@@ -1021,12 +1125,44 @@ func vc19NewFixture(t *testing.T) (f *vc19Fixture) {
 	return f
 }
 
+// vc19ServerTLS returns a server TLS configuration with a fresh self-signed
+// certificate, HTTP/1.1 only.
+func vc19ServerTLS(t *testing.T) (c *tls.Config) {
+	key, err := ecdsa.GenerateKey(elliptic.P256(), crand.Reader)
+	if err != nil {
+		t.Fatalf("harness: generating key: %s", err)
+	}
+
+	tmpl := &x509.Certificate{
+		SerialNumber: big.NewInt(19),
+		Subject:      pkix.Name{CommonName: "link-ip.example"},
+		NotBefore:    time.Now().Add(-time.Hour),
+		NotAfter:     time.Now().Add(240 * time.Hour),
+		KeyUsage:     x509.KeyUsageDigitalSignature,
+		ExtKeyUsage:  []x509.ExtKeyUsage{x509.ExtKeyUsageServerAuth},
+		DNSNames:     []string{"link-ip.example"},
+	}
+
+	der, err := x509.CreateCertificate(crand.Reader, tmpl, tmpl, &key.PublicKey, key)
+	if err != nil {
+		t.Fatalf("harness: creating certificate: %s", err)
+	}
+
+	return &tls.Config{
+		Certificates: []tls.Certificate{{Certificate: [][]byte{der}, PrivateKey: key}},
+		NextProtos:   []string{"http/1.1"},
+		MinVersion:   tls.VersionTLS12,
+	}
+}
+
 // vc19Client is a raw client that keeps its connection between requests the
 // way a keep-alive client does, and reconnects when the server closed it.
 type vc19Client struct {
 	addr  string
 	local net.IP
-	conn  net.Conn
+	tls   bool
+	raw   net.Conn // the TCP connection
+	conn  net.Conn // raw, or the TLS session over it
 	br    *bufio.Reader
 }
 
@@ -1037,12 +1173,12 @@ func (c *vc19Client) close() {
 
 	// Reset instead of FIN: no TIME_WAIT sockets pile up on the loopback
 	// tuple; every response has been read completely by then.
-	if tc, ok := c.conn.(*net.TCPConn); ok {
+	if tc, ok := c.raw.(*net.TCPConn); ok {
 		_ = tc.SetLinger(0)
 	}
 
-	_ = c.conn.Close()
-	c.conn, c.br = nil, nil
+	_ = c.raw.Close()
+	c.raw, c.conn, c.br = nil, nil, nil
 }
 
 // do sends raw and reads one response.  reused tells whether an earlier
@@ -1054,11 +1190,25 @@ func (c *vc19Client) do(method string, raw []byte) (resp vc19Resp, reused, timed
 			d.LocalAddr = &net.TCPAddr{IP: c.local}
 		}
 
-		c.conn, err = d.Dial("tcp", c.addr)
+		c.raw, err = d.Dial("tcp", c.addr)
 		if err != nil {
-			c.conn = nil
+			c.raw = nil
 
 			return resp, false, vc19IsTimeout(err), fmt.Errorf("dialing: %w", err)
+		}
+
+		c.conn = c.raw
+		if c.tls {
+			_ = c.raw.SetDeadline(time.Now().Add(20 * time.Second))
+			tc := tls.Client(c.raw, &tls.Config{InsecureSkipVerify: true, NextProtos: []string{"http/1.1"}})
+			if err = tc.Handshake(); err != nil {
+				c.conn = c.raw
+				c.close()
+
+				return resp, false, vc19IsTimeout(err), fmt.Errorf("tls handshake: %w", err)
+			}
+
+			c.conn = tc
 		}
 
 		c.br = bufio.NewReader(c.conn)
@@ -1118,12 +1268,14 @@ func vc19IsTimeout(err error) (ok bool) {
 
 func TestVerifC19Wire(t *testing.T) {
 	st := vstat.New("C19", "websvc.wire",
-		"rapid-drawn sequences of 1-3 raw requests over one client connection (keep-alive, reconnecting when the server closes): request lines (method x path from mutated documented shapes or free segments incl. dot/encoded/empty segments x query x absolute-form x HTTP version x Content-Length or chunked body with forged trailer) and header sets (forged forwarding / client-IP headers in several spellings, repeated, with marker, empty, zero-address and other-peer values, Connection naming them); a follow-up request is usually the previous one with exactly one component changed (method, one segment, arity, keyword, spelling, header set); sent from IPv4/IPv6 loopback peers to the http.Server websvc.New builds for a linked_ip bind, recording backend; non-trivial = reached the backend, or has a dot/encoded/empty segment, or carries a forged header; distinct by (method, target, version, header names, peer family, base)",
+		"rapid-drawn sequences of 1-3 raw requests over one client connection (keep-alive, reconnecting when the server closes): request lines (method x path from mutated documented shapes or free segments incl. dot/encoded/empty segments x query x absolute-form x HTTP version x Content-Length or chunked body with forged trailer) and header sets (forged forwarding / client-IP headers in several spellings, repeated, with marker, empty, zero-address and other-peer values, one to three Connection lines naming them, the first possibly empty or white space); a follow-up request is usually the previous one with exactly one component changed (method, one segment, arity, keyword, spelling, header set); sent from IPv4/IPv6 loopback peers to the http.Server websvc.New builds for a linked_ip bind, recording backend; non-trivial = reached the backend, or has a dot/encoded/empty segment, or carries a forged header; distinct by (method, target, version, header names, peer family, base)",
 		"fwd:get-linkip", "fwd:get-linkip-status", "fwd:post-linkip", "fwd:post-ddns",
 		"local-404", "robots", "rejected-near-miss", "path:dot-segment", "path:encoded-dot-segment",
 		"forwarded+forged-header", "forwarded+client-sent-x-connecting-ip", "forwarded+connection-names-client-ip",
 		"forwarded+peer-ipv4", "forwarded+peer-ipv6", "forwarded+base-path",
 		"forwarded+forged-zero-or-empty-value", "forwarded+chunked-body",
+		"forwarded+connection-first-line-empty-later-names-client-ip", "forwarded+repeated-header-line",
+		"forwarded+tls-bind",
 		"seq:forwarded-after-local-same-conn", "seq:local-after-forwarded-same-conn", "seq:forwarded-after-forwarded-same-conn",
 		"variant-forwarded", "variant-answered-locally")
 	st.Finish(t)
@@ -1134,7 +1286,7 @@ func TestVerifC19Wire(t *testing.T) {
 	rapid.Check(t, func(t *rapid.T) {
 		fr := rapid.SampledFrom(fx.fronts).Draw(t, "front")
 
-		cl := &vc19Client{addr: fr.addr4}
+		cl := &vc19Client{addr: fr.addr4, tls: fr.tls}
 		fam, self := "ipv4", ""
 		if fr.addr6 != "" && rapid.IntRange(0, 2).Draw(t, "peer-v6") == 0 {
 			cl.addr, fam, self = fr.addr6, "ipv6", "::1"
@@ -1326,6 +1478,10 @@ func vc19WireOne(
 	}
 
 	classes = append(classes, "fwd:"+pv.Shape, "forwarded+peer-"+fam)
+	if fr.tls {
+		classes = append(classes, "forwarded+tls-bind")
+	}
+
 	if fr.base != "" {
 		classes = append(classes, "forwarded+base-path")
 	}
@@ -1399,6 +1555,14 @@ func vc19WireOne(
 
 	if req.ConnListsCIP {
 		classes = append(classes, "forwarded+connection-names-client-ip")
+	}
+
+	if req.ConnFirstEmptyLaterCIP {
+		classes = append(classes, "forwarded+connection-first-line-empty-later-names-client-ip")
+	}
+
+	if req.RepeatedLine {
+		classes = append(classes, "forwarded+repeated-header-line")
 	}
 
 	if req.Chunked {
